@@ -30,7 +30,7 @@ PROP = {
         inst(F, "c04_b1_read_lm10_x0", Q, "low mark 10, capacity 18; read(n <= 6)", "B1c read", covers=2, timeout=3000, cost=150),
         inst(F, "c04_b1_seek_lm4_x3", Q, "low mark 4, capacity 15; seek(Start|Current) to any target", "B1d in-window seek exact; out-of-window refused, state intact", covers=2, timeout=2400, cost=100),
         inst(F, "c04_b1_seekback_lm4_x3", Q, "low mark 4, capacity 15; fill (any schedule, compaction included), then seek to ANY position incl. before the read position", "B1e every position seek() accepts delivers the source's byte (backward seeks after compaction)", covers=2, timeout=2400, cost=120),
-        inst(F, "c04_b1_seekback_lm10_x0", Q, "low mark 10, capacity 18", "B1e backward seek after fill", covers=2, timeout=3000, cost=150),
+        inst(F, "c04_b1_seekback_lm10_x0", T, "low mark 10, capacity 18", "B1e backward seek after fill", covers=2, timeout=3000, cost=150),
         inst(F, "c04_b1_seek_lm10_x0", Q, "low mark 10, capacity 18", "B1d seek", covers=2, timeout=3000, cost=150),
         inst("dlt_frame", "c04_b2_view_serial_26", Q, "any 26 B buffer starting with the marker, two views >= frame + 4", "B2 view independence (serial parser)", covers=2, timeout=2400, mem_gb=24),
         inst("dlt_frame", "c04_b2_view_storage_36", Q, "any 36 B buffer starting with the marker, two views >= frame + 4", "B2 view independence (storage parser)", covers=2, timeout=3300, mem_gb=24),
